@@ -615,7 +615,50 @@ func ruleR16(c *Ctx) *RuleResult {
 	return r
 }
 
+// bidiRoundTrip: t = A[B[x]] (first results of lookups) with A, B the two maps of the pair in either order; returns x and the
+// field of the outer map. By the pairing invariant A[B[x]] = x whenever B[x] is found.
+func bidiRoundTrip(t *Term, fwd, inv string) (*Term, string, bool) {
+	if !(t.Op == "ext" && t.Leaf == "0" && len(t.Args) == 1) {
+		return nil, "", false
+	}
+	orc, ok1 := lookupParts(t.Args[0])
+	if orc == nil {
+		return nil, "", false
+	}
+	_, okey := lookupParts(t.Args[0])
+	_ = ok1
+	if !(okey.Op == "ext" && okey.Leaf == "0" && len(okey.Args) == 1) {
+		return nil, "", false
+	}
+	irc, ikey := lookupParts(okey.Args[0])
+	if irc == nil {
+		return nil, "", false
+	}
+	switch {
+	case hasField(orc, fwd) && !hasField(orc, inv) && hasField(irc, inv) && !hasField(irc, fwd):
+		return ikey, fwd, true
+	case hasField(orc, inv) && !hasField(orc, fwd) && hasField(irc, fwd) && !hasField(irc, inv):
+		return ikey, inv, true
+	}
+	return nil, "", false
+}
+
 func checkBidiPut(g *GC, fwd, inv string) []string {
+	// a path that found x in one map and then failed to find that result in the other contradicts the pairing invariant the
+	// rule itself maintains (Put written on top of the map's own Remove tests both): infeasible, nothing to judge
+	for _, a := range g.Guards {
+		if l, pol, ok := lookupAtom(a); ok && !pol {
+			if rc, k := lookupParts(l); rc != nil && k.Op == "ext" && k.Leaf == "0" && len(k.Args) == 1 {
+				if irc, _ := lookupParts(k.Args[0]); irc != nil && ((hasField(rc, fwd) && hasField(irc, inv)) || (hasField(rc, inv) && hasField(irc, fwd))) {
+					for _, b := range g.Guards {
+						if l2, pol2, ok2 := lookupAtom(b); ok2 && pol2 && noEpoch(l2) == noEpoch(k.Args[0]) {
+							return nil
+						}
+					}
+				}
+			}
+		}
+	}
 	bad := staleNodeReads(g)
 	var byKey, byVal *Term
 	polK, polV, seenK, seenV := false, false, false, false
@@ -653,6 +696,13 @@ func checkBidiPut(g *GC, fwd, inv string) []string {
 				evV = true
 			case len(args) == 2 && hasField(args[0], fwd) && args[1].String() == "p:1":
 				// dropping the key's own forward entry before it is put again: no effect on the outcome
+			case len(args) == 2 && hasField(args[0], inv) && args[1].String() == "p:2":
+				// likewise the value's own inverse entry
+			case len(args) == 2 && func() bool {
+				x, outer, ok := bidiRoundTrip(args[1], fwd, inv)
+				// inverse.Remove(forward[inverse[v]]) is inverse.Remove(v); forward.Remove(inverse[forward[k]]) is forward.Remove(k)
+				return ok && ((outer == fwd && hasField(args[0], inv) && x.String() == "p:2") || (outer == inv && hasField(args[0], fwd) && x.String() == "p:1"))
+			}():
 			default:
 				bad = append(bad, "eviction with the wrong map or key: "+trunc(ef.String(), 220))
 			}
